@@ -29,6 +29,15 @@ class Inconclusive(Exception):
     """The machinery could not decide (self-test failed, monitor not reached...). Never a violation."""
 
 
+class Violation(Exception):
+    """Raised by a monitor placed deep inside a harness helper (e.g. the input-digest monitor around update()): the case is violated."""
+
+    def __init__(self, mechanism, detail=None):
+        super().__init__(mechanism)
+        self.mechanism = mechanism
+        self.detail = detail
+
+
 def canon(obj):
     return json.dumps(obj, sort_keys=True, default=_json_default, separators=(',', ':'))
 
@@ -170,6 +179,8 @@ def worker_main(prop, cases_path, out_path, deadline):
             res = mod.run_case(case)
         except Inconclusive as e:
             res = inconclusive(str(e))
+        except Violation as v:
+            res = violated(v.mechanism, v.detail)
         except Exception as e:
             # An exception that travelled through the subject's code on an input the harness considers valid is
             # an observed failure of the API (violation); one raised by the harness alone is a machinery error.
